@@ -316,8 +316,8 @@ ASSUMPTIONS = ['kapture_from_dir is called with its defaults (no skip_list, no t
                'upgrade_1_0_to_1_1_inplace is called the way tools/kapture_download_dataset.py calls it (all three feature '
                'types None, taken from the name field of the files) or with plain names as types',
                'the dataset root exists and is a directory; files are valid UTF-8',
-               'upgrade inputs with global features / descriptors / matches / observations also have keypoints '
-               '(the keypoints_type-is-None assertions are property C20)',
+               'the keypoints_type-is-not-None assertions of the upgrade (descriptors, matches, observations) are modelled '
+               'as they are in the code; whether they should exist is property C20',
                'a name field used as folder name by the upgrade is at most 200 bytes (NAME_MAX of the host is not modelled)',
                'directory-level events (listdir/scandir/mkdir/rmdir) are judged by the oracle (must stay under the root; '
                'none that modifies on load) but are not part of the trace compared with the model']
@@ -745,6 +745,18 @@ def gen_cases(rng, tier):
         files = {q: t for q, t in v10[0].items() if q != p}
         cases.append({'op': 'upgrade', 'files': files, 'bins': list(v10[1]), 'up_types': [None, None, None],
                       'label': {'target': None, 'pclass': 'missing', 'payload': p, 'variant': 'v10', 'note': 'file removed'}})
+    # 1.0 datasets with global features (or descriptors) but no keypoints
+    for keep, up in ((('sensors/', 'reconstruction/global_features/'), [None, None, None]),
+                     (('sensors/', 'reconstruction/global_features/'), [None, None, 'gf']),
+                     (('sensors/', 'reconstruction/descriptors/'), [None, None, None]),
+                     (('sensors/sensors.txt', 'reconstruction/matches/', 'reconstruction/observations.txt'), [None, None, None]),
+                     (('sensors/sensors.txt', 'reconstruction/matches/', 'reconstruction/observations.txt'), ['kp', None, None])):
+        sub = _subset(v10, keep)
+        mk('upgrade', sub, None, 'benign', '', 'v10-nokp', up, 'no keypoints')
+        for p in sorted(sub[0]):
+            if p.startswith('reconstruction/') and p.count('/') == 2:
+                for pcls, pl in [('code-touch', _TOUCH), ('path', '../../../outside'), ('dtype-ok', 'np.int8')]:
+                    mk('upgrade', sub, (p, 0, 0 if pcls == 'path' else 1), pcls, pl, 'v10-nokp', up, 'no keypoints')
     for kind, cfg in (('keypoints', 'X, uint8, 2'), ('descriptors', 'X, uint8, 2, SIFT, L2'), ('global_features', 'X, int64, 2, L2')):
         for pcls, pl in [('dtype-ok', 'np.float64'), ('code-touch', _TOUCH), ('dtype-near', 'bool')]:
             files = dict(full[0])
